@@ -30,6 +30,8 @@ EPS_CAP = 1e-8
 LN10 = math.log(10.0)
 KEY_ALT = "add-formula-present-undersaturated"
 KEY_REL = "related-exchanger-ignores-predissolved-amount"
+KEY_NEG = "negative-residual-moles-after-complete-dissolution"
+KEY_PREC = "related-exchanger-of-precipitate-only-phase-reset"
 
 
 def hexs(s):
@@ -192,7 +194,7 @@ def valid_phase(moles, d, initial, opt):
 def direct_oracle(spec, c):
     """evaluate the property statement on the implementation's own public output.  Returns (problems, stats, alt_problems)"""
     blocks = parse_blocks(c["lines"])
-    problems, alt, rel = [], [], []
+    problems, alt, rel, prec, neg = [], [], [], [], []
     st = {"phase_states": {}, "calcs": 0, "ex": 0, "su": 0, "ss_ideal": 0, "ss_binary": 0, "dump_checked": 0}
     prev = {}          # amounts saved at the end of the previous simulation
     cur_sim, last_in_sim, last_step = None, {}, {}
@@ -209,6 +211,18 @@ def direct_oracle(spec, c):
         prev[p["name"]] = p["moles"]
     stage_of_sim = {}
     for b in blocks:
+        if b["state"] in (2, 3) and not b["norow"]:
+            # initial exchange / surface calculation: its result is what the reaction calculation starts from
+            if "totx:X" in b["R"] and capX is not None and b["state"] == 2:
+                if abs(b["R"]["totx:X"] - capX) > EPS_CAP * capX:
+                    problems.append(f"block {b['k']}: initial exchange calculation holds {b['R']['totx:X']!r} eq of X but {capX!r} were defined")
+                startX = b["R"]["totx:X"]
+            for k in capS:
+                if "sys:" + k in b["R"] and b["state"] == 3:
+                    if abs(b["R"]["sys:" + k] - capS[k]) > EPS_CAP * capS[k]:
+                        problems.append(f"block {b['k']}: initial surface calculation holds {b['R']['sys:' + k]!r} mol of {k} but {capS[k]!r} were defined")
+                    startS[k] = b["R"]["sys:" + k]
+            continue
         if b["state"] != 5 or b["norow"]:
             continue
         R = b["R"]
@@ -231,6 +245,8 @@ def direct_oracle(spec, c):
             if f"equi:{nm}" not in R:
                 continue
             moles, si = R[f"equi:{nm}"], R[f"si:{nm}"]
+            if nm in R and R[nm] < 0 and moles == 0:
+                moles = R[nm]      # EQUI() clamps a negative x->moles to 0 (and overwrites it); the column was punched before
             initial = last_in_sim[nm] if (incr and nm in last_in_sim) else prev[nm]
             eng = b["P"].get(nm)
             # observations of the same number agree (SELECTED_OUTPUT column = BASIC function)
@@ -248,6 +264,12 @@ def direct_oracle(spec, c):
             key += ":" + ("notin" if notin else "present" if moles > 0 else "absent")
             st["phase_states"][key] = st["phase_states"].get(key, 0) + 1
             msg = None if notin else valid_phase(moles, d, initial, p.get("opt"))
+            if moles < 0 and moles >= -4 * math.ulp(max(initial, prev.get(nm, 0.0), 1e-300)) and "alt" not in p:
+                # reset(): moles - delta/factor leaves a residue of a few ulp of the amount that was dissolved completely;
+                # equal(moles, delta, ineq_tol = 1e-15) is an absolute test and does not snap it to 0 for amounts >= ~5 mol
+                neg.append(f"block {b['k']} (sim {sim} step {b['step']}): {nm} ends with {moles!r} mol (negative residue of the "
+                           f"complete dissolution of {initial!r} mol; -equilibrium_phases column), SI - target = {d!r}")
+                msg = valid_phase(0.0, d, initial, p.get("opt")) if not notin else None
             if msg:
                 (alt if "alt" in p else problems).append(f"block {b['k']} (sim {sim} step {b['step']}): {nm} target SI {p['si']}: {msg}")
             last_in_sim[nm] = moles
@@ -262,7 +284,7 @@ def direct_oracle(spec, c):
                 ref = last_step.get("sys:X", startX) if incr else startX
                 if abs(sx - ref) > EPS_CAP * ref:
                     problems.append(f"block {b['k']}: exchanger holds {sx!r} eq of X but its capacity at the start of the calculation was {ref!r}")
-                if abs(sx - capX) > EPS_CAP * capX * (st["calcs"] + 1):
+                if abs(sx - capX) > EPS_CAP * capX * (st["calcs"] + 2):
                     problems.append(f"block {b['k']}: exchanger holds {sx!r} eq of X but {capX!r} were defined")
             else:
                 x = spec["exchange"]["comps"][0]
@@ -274,7 +296,17 @@ def direct_oracle(spec, c):
                     known = x["prop"] * 1e-10 * st["calcs"] * 1.01 + EPS_CAP * max(ref, sx)
                     msg = (f"block {b['k']}: exchanger related to {x['phase']} holds {sx!r} eq but proportion x moles = {ref!r} "
                            f"(difference {diff!r} eq, proportion*1e-10 = {x['prop'] * 1e-10!r})")
-                    (rel if 0 <= diff <= known else problems).append(msg)
+                    pp = next((q for q in spec["phases"] if q["name"] == x["phase"]), {})
+                    if pp.get("opt") == "precipitate_only":
+                        # set_inert_moles hides the initial amount from the solver: the exchanger is "reset" to the active part
+                        ini = (last_in_sim.get(x["phase"], prev[x["phase"]]) if incr else prev[x["phase"]])
+                        act = x["prop"] * max(R.get(f"equi:{x['phase']}", 0.0) - ini, 0.0)
+                        if abs(sx - act) <= EPS_CAP * max(act, sx) + x["prop"] * 1e-10 * st["calcs"] * 1.01 + 1e-25:
+                            prec.append(msg + " [phase is precipitate_only: sites follow moles - initial]")
+                        else:
+                            problems.append(msg)
+                    else:
+                        (rel if 0 <= diff <= known else problems).append(msg)
             last_step["sys:X"] = sx
         for k in capS:
             if "sys:" + k in R:
@@ -313,7 +345,7 @@ def direct_oracle(spec, c):
                         if key in fl and p["name"] in last_in_sim:
                             st["dump_checked"] += 1
                             dm, em = float(fl[key]), last_in_sim[p["name"]]
-                            if abs(dm - em) > 1e-12 * max(abs(em), 1e-30) and not (em == 0 and dm == 0):
+                            if abs(dm - em) > 1e-12 * max(abs(em), 1e-30) and not (em == 0 and dm == 0) and not (neg and em < 0 and dm == 0):
                                 problems.append(f"DUMP: EQUILIBRIUM_PHASES_RAW 1 holds {dm!r} mol of {p['name']} but the last calculation ended with {em!r}")
                             ks = f"component[{p['name']}]/si"
                             if ks in fl and abs(float(fl[ks]) - p["si"]) > 1e-12:
@@ -321,6 +353,8 @@ def direct_oracle(spec, c):
         except Exception as ex:   # the dump parser is not what is judged here
             st["dump_parse_error"] = str(ex)[:100]
     st["rel"] = rel
+    st["prec"] = prec
+    st["neg"] = neg
     return problems, st, alt
 
 
@@ -438,6 +472,8 @@ def run(ctx):
     tie_broken = []
     alt_cases = []
     rel_cases = []
+    prec_cases = []
+    neg_cases = []
     for i in ids:
         s, c = byid[i], results[i]
         hist["db"][s["db"]] = hist["db"].get(s["db"], 0) + 1
@@ -486,6 +522,11 @@ def run(ctx):
         vf = [r for r in rl if r[0] == "V" and not r[4]]
         tf = [r for r in rl if r[0] == "T" and not r[4]]
         vf_main = [r for r in vf if r[2] != "valid-alt"]
+        if st["neg"]:
+            # the model's V relation sees the same negative residue: attributed to the finding, not judged twice
+            vf_main = [r for r in vf_main if not (r[2].startswith("valid") and -1e-12 < r[5] < 0)]
+            if not problems and not vf_main:
+                neg_cases.append((i, st["neg"]))
         if len(ctx.cov["samples"]) < 3 and st["calcs"] and any(r[0] == "V" and r[2].startswith("valid") for r in rl):
             ex_ = next(r for r in rl if r[0] == "V" and r[2].startswith("valid"))
             ctx.sample({"case": i, "db": s["db"], "temp": s["temp"], "phases": s["phases"], "relation": ex_[2], "phase": ex_[3],
@@ -498,6 +539,8 @@ def run(ctx):
             alt_cases.append(i)
         if st["rel"] and not problems:
             rel_cases.append((i, st["rel"]))
+        if st["prec"] and not problems:
+            prec_cases.append((i, st["prec"]))
         if tf:
             tie_broken.append((i, tf[:5]))
     deferred = []
@@ -507,6 +550,12 @@ def run(ctx):
     if rel_cases:
         hist["related_exchanger_offset_cases"] = len(rel_cases)
         deferred.append(("rel", rel_cases[0]))
+    if neg_cases:
+        hist["negative_residue_cases"] = len(neg_cases)
+        deferred.append(("neg", neg_cases[0]))
+    if prec_cases:
+        hist["related_exchanger_precipitate_only_cases"] = len(prec_cases)
+        deferred.append(("prec", prec_cases[0]))
     ctx.cov["input_distribution"] = hist
     ctx.cov["evaluations"] = nV + nT + nprobe
     ctx.cov["property_relations_evaluated"] = nV
@@ -547,6 +596,34 @@ def run(ctx):
             vf = [r for r in rels.get(i, []) if r[0] == "V" and not r[4]]
             if alt:
                 report_failure(ctx, exe, byid[i], results[i], vf, problems, alt, only_alt=True)
+        elif kind == "neg":
+            i, msgs = what
+
+            def still(c2, vf2, p2, a2, i=i):
+                return c2["errors"] == 0 and not p2 and bool(direct_oracle(still.spec, c2)[1]["neg"])
+            small = byid[i]
+            for _ in range(14):
+                for cand in gen.shrink_candidates(small):
+                    still.spec = cand
+                    try:
+                        t2, c2, vf2, p2, a2 = run_one(ctx, exe, cand)
+                    except Exception:
+                        continue
+                    if still(c2, vf2, p2, a2):
+                        small = cand
+                        break
+                else:
+                    break
+            t2, c2, vf2, p2, a2 = run_one(ctx, exe, small)
+            m2 = direct_oracle(small, c2)[1]["neg"] if c2["errors"] == 0 else []
+            if not m2:
+                small, t2, m2 = byid[i], texts[i], msgs
+            ctx.finding(KEY_NEG, "a phase that dissolves completely ends with a negative amount: " + m2[0],
+                        {"spec": small, "db": small["db"], "input": t2, "oracle": m2[:5]})
+        elif kind == "prec":
+            i, msgs = what
+            ctx.finding(KEY_PREC, "EXCHANGE related to a precipitate_only phase loses its sites: " + msgs[0],
+                        {"spec": byid[i], "db": byid[i]["db"], "input": texts[i], "oracle": msgs[:5]})
         else:
             i, msgs = what
             ctx.finding(KEY_REL, "EXCHANGE related to an equilibrium phase: " + msgs[0],
@@ -584,10 +661,16 @@ def replay(ctx, data):
         for f in pf[:20]:
             print("  ", "round", f[1], f[2], "unknown", f[3], repr(f[5]), repr(f[6]))
     vf_main = [r for r in vf if r[2] != "valid-alt"]
+    if "spec" in data and st.get("neg"):
+        vf_main = [r for r in vf_main if not (r[2].startswith("valid") and -1e-12 < r[5] < 0)]
     if vf_main or problems:
         ctx.violation("replayed input still violates the property: " + (problems[0] if problems else vf_main[0][2]), data)
     elif alt:
         ctx.finding(KEY_ALT, "replayed input: " + alt[0], data)
+    elif "spec" in data and st.get("neg") and not [r for r in vf_main if not (-1e-12 < r[5] < 0)]:
+        ctx.finding(KEY_NEG, "replayed input: " + st["neg"][0], data)
+    elif "spec" in data and st.get("prec"):
+        ctx.finding(KEY_PREC, "replayed input: " + st["prec"][0], data)
     elif "spec" in data and st.get("rel"):
         ctx.finding(KEY_REL, "replayed input: " + st["rel"][0], data)
     elif tf or pf:
